@@ -82,11 +82,28 @@ def _styles(api):
     for bname in ("none", "ascii", "solid"):
         fn = api.P.find_function(treeb, "BorderStyle", bname, relb)
         vals = dict(default)
-        cached = "cls._%s" % bname in ast.unparse(fn)
-        for n in ast.walk(fn):
-            if isinstance(n, ast.Assign) and isinstance(n.targets[0], ast.Attribute) and n.targets[0].attr in FIELDS \
-                    and isinstance(n.value, ast.Constant):
-                vals[n.targets[0].attr] = n.value.value
+        slot = "cls._%s" % bname
+        # strict shape: `if cls._x is None: style = cls(); style.<field> = "<const>" ...; cls._x = style` then
+        # `return cls._x`; anything else is not read (a half-read factory would silently give the defaults)
+        body = [st for st in fn.body if not (isinstance(st, ast.Expr) and isinstance(st.value, ast.Constant))]
+        ok = len(body) == 2 and isinstance(body[0], ast.If) and not body[0].orelse \
+            and ast.unparse(body[0].test) == "%s is None" % slot \
+            and isinstance(body[1], ast.Return) and ast.unparse(body[1].value) == slot
+        if ok:
+            inner = body[0].body
+            ok = len(inner) >= 2 and ast.unparse(inner[0]) == "style = cls()" and ast.unparse(inner[-1]) == "%s = style" % slot
+            for n in inner[1:-1] if ok else []:
+                if isinstance(n, ast.Assign) and len(n.targets) == 1 and isinstance(n.targets[0], ast.Attribute) \
+                        and ast.unparse(n.targets[0].value) == "style" and n.targets[0].attr in FIELDS \
+                        and isinstance(n.value, ast.Constant) and isinstance(n.value.value, str):
+                    vals[n.targets[0].attr] = n.value.value
+                else:
+                    ok = False
+        if not ok:
+            raise api.P.Untranslatable("%s:%d: BorderStyle.%s is not of the shape `if cls._%s is None: style = cls(); "
+                                       "style.<field> = <text>...; cls._%s = style` / `return cls._%s`"
+                                       % (relb, fn.lineno, bname, bname, bname, bname))
+        cached = True
         if len(vals) != len(FIELDS):
             raise api.P.Untranslatable("%s: BorderStyle fields changed" % relb)
         bases[bname] = (cached, [vals[f] for f in FIELDS])
